@@ -51,6 +51,7 @@ def run(ctx):
     rep.guarded("names", V, lambda: rule_names(facts, rep))
     rep.guarded("balance", V, lambda: rule_balance(facts, rep))
     rep.guarded("text", V + "Term::render_svg", lambda: rule_text(facts, rep))
+    rep.guarded("text", V + "Term::render_svg", lambda: rule_rows(facts, rep))
     rep.guarded("lines", V + "split_lines", lambda: rule_lines(facts, rep))
     # the styles the spans are tagged with are the runs of anstream's styled-run extractor: its SGR rules are evaluated here as
     # well (same rules as C07), and render_svg must take its runs from it
@@ -547,6 +548,57 @@ def rule_text(facts, rep):
     rep.check(ok, "text", r["path"], "sheet-and-lines-computed-after-the-invert-pass",
               "color_styles(..) and split_lines(..) must see the post-invert runs: a sheet built before the swap defines classes the "
               "inverted spans do not use", loc(r))
+
+
+def rule_rows(facts, rep):
+    """Per line: a background row — write_bg_span for every non-empty fragment, in order — exactly when some run of the line carries
+    a background colour (whatever colour it is: the class rule in the sheet paints it), then the foreground row — write_fg_span for
+    every non-empty fragment, in order.  By evaluation of the body of the loop over the lines on lines of one to three runs (background
+    unset / one colour / another, fragment empty or not) with the span writers recorded."""
+    import abseval
+    import itertools
+    r = facts.body("anstyle_svg", V + "Term::render_svg")
+    rep.fn(r["path"])
+    fl = [l for l in (hir.for_loop(x) for x in hir.walk(r["hir"]) if x.get("k") == "match" and x.get("src") == "ForLoopDesugar") if l]
+    outer = [l for l in fl if hirpp.expr(hir.peel(l[1])).endswith("styled_lines") or "styled_lines" in hirpp.expr(hir.peel(l[1]))[:40]]
+    if len(outer) != 1:
+        raise Unrecognised(f"{len(outer)} loops over styled_lines")
+    pat, _src, body = outer[0]
+
+    def style(bg):
+        return ("rec", {"fg": ("none",), "bg": ("some", ("sym", bg)) if bg else ("none",), "underline": ("none",),
+                        "effects": ("ctor", "anstyle::effect::Effects", ("int", 0))})
+    bad, n = [], 0
+    runs1 = [(bg, frag) for bg in (None, "B1", "B2") for frag in ("x", "")]
+    lines = [[a] for a in runs1] + [[a, b] for a, b in itertools.product(runs1, repeat=2)] + \
+            [[(None, "a"), (None, "b"), ("B1", "c")], [(None, "a"), ("B2", ""), (None, "c")], [(None, "a"), (None, ""), (None, "c")]]
+    for line in lines:
+        log = []
+        atoms = {"fmt:sink": lambda a_: ("ok", ("unit",)),
+                 V + "write_bg_span": lambda a_, log=log: (log.append(("bg", a_[1], a_[2])), ("unit",))[1],
+                 V + "write_fg_span": lambda a_, log=log: (log.append(("fg", a_[1], a_[2])), ("unit",))[1]}
+        ev = abseval.Evaluator(facts, "anstyle_svg", atoms, inline_crates=("anstyle_svg", "anstyle"))
+        ev.concrete_strings = True
+        ev.fmt_symbolic = True
+        env = abseval.Env()
+        env.update({"buffer": ("sym", "buffer"), "text_x": ("int", 10), "text_y": ("int", 30), "line_height": ("int", 18)})
+        value = ("array",) + tuple(("tuple", style(bg), ("str", frag)) for bg, frag in line)
+        n += 1
+        try:
+            if not ev.bind(pat, value, env):
+                raise Unrecognised("the loop pattern does not bind a line")
+            ev.ev(body, env)
+        except Unrecognised as ex:
+            bad.append(f"line {line}: not evaluable: {ex}")
+            continue
+        except (abseval.Return, abseval.Break, abseval.Continue):
+            log.append(("early-exit",))
+        visible = [(style(bg), ("str", frag)) for bg, frag in line if frag]
+        want = ([("bg",) + v for v in visible] if any(bg for bg, _ in line) else []) + [("fg",) + v for v in visible]
+        if log != want:
+            bad.append(f"line {line}: span writers called {[(e_[0], e_[-1]) for e_ in log]}")
+    rep.count(n)
+    rep.check(not bad, "text", r["path"], "rows:background-row-iff-a-run-has-a-background,then-foreground-row", f"{n} lines evaluated; {bad[:2]}"[:500], loc(r))
 
 
 def rule_lines(facts, rep):
